@@ -5,13 +5,33 @@ import Mdsort.Model.Eval
 
 `date [header]` takes the instant from the `Date` header (`message_get_header1` + `time_parse`);
 `date access | modified | created` takes it from `stat(path)`: `st_atim`, `st_mtim`, `st_ctim`
-respectively.  In the model `stat` is the oracle `env.fileTime`, indexed by the field: the theorem
-below shows that each field consults exactly its own entry of the oracle and nothing else.  The
-comparison is strict, in both directions, for every `now` and every instant (also in the future).
+respectively.  In the model `stat` is the oracle `env.fileTime : path → Option FileTimes` (the three
+`tv_sec` values, `none` = `stat` failed) and `time_format` the oracle `env.timeFormat`; the selection
+of the field is part of the model (`Model.eval`, as `ts = &st.st_atim / st_mtim / st_ctim` in the C
+code), and the theorems below show that each field looks at exactly its own time stamp of the
+message's own path and at nothing else.  The comparison is strict, in both directions, for every
+`now` and every instant (also in the future).
 -/
 
 namespace Mdsort.Proofs
 open Mdsort Mdsort.Model
+
+/-- The documented binding of the file fields: `access` = `st_atim`, `modified` = `st_mtim`,
+`created` = `st_ctim` (`header` does not look at the file; the value is irrelevant). -/
+def fieldTime (sb : FileTimes) : DateField → Int
+  | .access => sb.atime
+  | .modified => sb.mtime
+  | .created => sb.ctime
+  | .header => 0
+
+/-- `stat(path)`, one time stamp of the result, `time_format` of it: `none` = error (either call failed). -/
+def statInstant (env : Env) (sel : FileTimes → Int) : Option (Option (Int × Bytes)) :=
+  match env.fileTime env.path with
+  | none => none
+  | some sb =>
+    match env.timeFormat (sel sb) with
+    | none => none
+    | some s => some (some (sel sb, s))
 
 /-- The instant (and the text shown by `-d`) a date condition on `field` looks at: `none` = error,
 `some none` = there is nothing to compare (no `Date` header), `some (some (t, text))` otherwise. -/
@@ -23,9 +43,9 @@ def dateInstant (env : Env) (m : Msg) : DateField → Option (Option (Int × Byt
       match timeParse env.strptime env.zoneName d with
       | none => none
       | some t => some (some (t, d))
-  | .access => (env.fileTime .access).map some
-  | .modified => (env.fileTime .modified).map some
-  | .created => (env.fileTime .created).map some
+  | .access => statInstant env (·.atime)
+  | .modified => statInstant env (·.mtime)
+  | .created => statInstant env (·.ctime)
 
 /-- The documented comparison: `date > age` holds iff the message is strictly older than `age`,
 `date < age` iff strictly younger; `now - tim` is the age (negative for an instant in the future). -/
@@ -75,7 +95,7 @@ theorem date_fields (env : Env) (root : Msg) (lno : Nat) (field : DateField) (cm
     (part : Nat) (m : Msg) (st : St) :
     eval env root (.date lno field cmp age) part m st =
       dateOutcome env lno cmp age part st (dateInstant env m field) := by
-  cases field <;> simp only [eval, dateInstant]
+  cases field <;> simp only [eval, dateInstant, statInstant]
   · cases getHeader1 m (ofString "Date") with
     | none => rfl
     | some d =>
@@ -84,9 +104,37 @@ theorem date_fields (env : Env) (root : Msg) (lno : Nat) (field : DateField) (cm
       | none => rfl
       | some t => exact date_tail env lno cmp age part st t d
   all_goals
-    rcases env.fileTime _ with _ | ⟨t, s⟩
+    rcases env.fileTime _ with _ | sb
     · rfl
-    · exact date_tail env lno cmp age part st t s
+    · dsimp only
+      rcases env.timeFormat _ with _ | s
+      · rfl
+      · exact date_tail env lno cmp age part st _ s
+
+/-- A date condition on a file field, spelled out: `stat` of the message's path fails = error;
+otherwise the instant is `fieldTime sb field`; `time_format` fails = error; otherwise the strict
+comparison of `now - instant` with the age decides. -/
+theorem date_file_fields (env : Env) (root : Msg) (lno : Nat) (field : DateField) (cmp : DateCmp) (age : Nat)
+    (part : Nat) (m : Msg) (st : St) (hf : field ≠ .header) :
+    eval env root (.date lno field cmp age) part m st =
+      (match env.fileTime env.path with
+       | none => (.error, st)
+       | some sb =>
+         match env.timeFormat (fieldTime sb field) with
+         | none => (.error, st)
+         | some text =>
+           if AgeHolds cmp age env.now (fieldTime sb field) then
+             exprRegexec env .date lno part { src := [46, 42] } (ofString "Date") text st
+           else (.nomatch, st)) := by
+  rw [date_fields]
+  cases field
+  · exact absurd rfl hf
+  all_goals
+    simp only [dateInstant, statInstant, fieldTime]
+    rcases env.fileTime env.path with _ | sb
+    · rfl
+    · dsimp only
+      rcases env.timeFormat _ with _ | s <;> rfl
 
 /-! ## Non-vacuity: a file whose three time stamps differ -/
 
@@ -98,11 +146,8 @@ def exDateEnv : Env where
   now := 1000
   strptime := fun _ => none
   zoneName := fun _ => none
-  fileTime := fun f => match f with
-    | .access => some (300, [97])
-    | .modified => some (100, [109])
-    | .created => some (200, [99])
-    | .header => none
+  fileTime := fun p => if p = [47, 109, 47, 110, 101, 119, 47, 49] then some { atime := 300, mtime := 100, ctime := 200 } else none
+  timeFormat := fun t => if t = 300 then some [97] else if t = 100 then some [109] else if t = 200 then some [99] else none
   dryrun := false
   path := [47, 109, 47, 110, 101, 119, 47, 49]
 
